@@ -18,7 +18,8 @@ pub const VOCAB: &[&str] = &[
     "als", "anders", "antwoord", "functie", "zolang", "stel", "ja", "nee", "stop", "volgende",
     "<=", ">=", "==", "!=", "&&", "||", "=", ";", ",", "(", ")", "{", "}", "[", "]", "!", "<",
     ">", "-", "+", "*", "/", "%", "a", "b", "f", "x", "0", "1", "2", "7", "1.5", "\"s\"",
-    "print", "lengte", "int", "type",
+    "print", "lengte", "int", "type", ".", "^", "\"\"", "\"a\\\"b\"", "3.", "0.0", "string", "float", "bool",
+    "a.b", "1.x", "é", "//", "// c\n", "-1", "f(", "a[", "x =", "+=",
 ];
 
 /// The token texts of `text` (through the real lexer's spans)
